@@ -7,6 +7,7 @@ import (
 	"pgregory.net/rapid"
 
 	codec "github.com/uhppoted/uhppote-core/encoding/UTO311-L0x"
+	"github.com/uhppoted/uhppote-core/types"
 
 	"verif/harness/batch"
 	"verif/harness/ev"
@@ -132,4 +133,64 @@ func sweepBatch(yield func(batchCase) bool) {
 			}
 		}
 	}
+}
+
+// provoke makes the codec panic the way it always has for a caller's mistake - a message layout with a field of a kind it does
+// not know (a string) - and recovers, as an application's top-level handler would. What the codec was in the middle of must
+// not colour the decodes that follow.
+type unknownKind struct {
+	MsgType types.MsgType `uhppote:"value:0x94"`
+	Name    string        `uhppote:"offset:8"`
+}
+
+func provoke(k int) (panicked bool) {
+	defer func() {
+		if recover() != nil {
+			panicked = true
+		}
+	}()
+	msg := make([]byte, 64)
+	msg[0], msg[1] = 0x17, 0x94
+	switch k % 3 {
+	case 0:
+		var v unknownKind
+		codec.Unmarshal(msg, &v)
+	case 1:
+		codec.UnmarshalAs(msg, unknownKind{})
+	default:
+		var list []unknownKind
+		codec.UnmarshalArray([][]byte{msg, msg}, &list)
+	}
+	return false
+}
+
+type afterPanicCase struct {
+	How   int       `json:"how"`
+	Batch batchCase `json:"then_batch"`
+	Disp  dispCase  `json:"then_dispatch"`
+}
+
+func checkAfterPanic(c afterPanicCase) *rp.Fail {
+	if !provoke(c.How) {
+		ev.Excluded("the codec did not panic for a layout with a string field", 1)
+		return nil
+	}
+	ev.Class("decodes-right-after-a-recovered-codec-panic", 1)
+	if f := checkDisp(c.Disp); f != nil {
+		f.Fingerprint += "/after-a-recovered-panic"
+		f.Msg += " (right after the codec had panicked, and the panic had been recovered, for a caller-defined layout with a string field)"
+		return f
+	}
+	if f := checkBatch(c.Batch); f != nil {
+		f.Fingerprint += "/after-a-recovered-panic"
+		f.Msg += " (right after the codec had panicked, and the panic had been recovered, for a caller-defined layout with a string field)"
+		return f
+	}
+	return nil
+}
+
+func genAfterPanic(t *rapid.T) afterPanicCase {
+	return afterPanicCase{How: rapid.IntRange(0, 2).Draw(t, "how"), Batch: genBatch(t),
+		Disp: dispCase{Kind: rapid.SampledFrom([]string{"request", "response"}).Draw(t, "kind"), Code: rapid.SampledFrom([]byte{0x94, 0x20, 0x32, 0x5a, 0xb4, 0x01}).Draw(t, "code"),
+			Len: rapid.SampledFrom([]int{64, 64, 65, 63, 0, 128}).Draw(t, "len"), ID: rapid.SampledFrom([]byte{0x17, 0x17, 0x18, 0x19, 0x00}).Draw(t, "id")}}
 }
